@@ -49,6 +49,9 @@ func main() {
 // ---- concretisation of symbols
 var words = []string{"nop", "put", "echo", "each"}
 
+// completable prefixes (LspPos Prefixes): plain ASCII runs for which the completer has candidates
+var prefixes = []string{"ech", "$pa", "pu"}
+
 func isWord(s string) bool {
 	for _, w := range words {
 		if s == w {
@@ -281,11 +284,15 @@ func run(c *lib.Ctx) error {
 		texts[i].Rep = c.Rand.Intn(len(repSets))
 	}
 	var gerr error
-	if err := inServerEnv(empty, func() { gerr = replayGenerated(c, empty, texts) }); err != nil {
+	var ccases []compCase
+	if err := inServerEnv(empty, func() { ccases, gerr = replayGenerated(c, empty, texts) }); err != nil {
 		return lib.Infra("%v", err)
 	}
 	if gerr != nil {
 		return gerr
+	}
+	if err := judgeCompletions(c, dir, ccases, len(texts) > 50); err != nil {
+		return err
 	}
 	c.Set("generated_texts", len(texts))
 	c.Set("exhaustive", true)
@@ -323,10 +330,14 @@ func replay(c *lib.Ctx, dir, empty string) error {
 	var gt genText
 	if json.Unmarshal(f.Case, &gt) == nil && gt.Pos != nil {
 		var gerr error
-		if err := inServerEnv(empty, func() { gerr = replayGenerated(c, empty, []genText{gt}) }); err != nil {
+		var ccases []compCase
+		if err := inServerEnv(empty, func() { ccases, gerr = replayGenerated(c, empty, []genText{gt}) }); err != nil {
 			return lib.Infra("%v", err)
 		}
-		return gerr
+		if gerr != nil {
+			return gerr
+		}
+		return judgeCompletions(c, dir, ccases, false)
 	}
 	var st storedTrace
 	if err := json.Unmarshal(f.Case, &st); err != nil || st.Script == nil {
